@@ -1,5 +1,6 @@
 """C07 - the hub delivers each message exactly once, in order, to the right listeners."""
 PROPERTY = 'C07'
+THOROUGH_SEEDS = 1      # the thorough enumeration of this driver is already minutes long
 LEVEL = 'proof'
 DEDUCTIVE = ['contracts.c07_hub']
 BUDGET_S = {'quick': 30.0, 'thorough': 90.0}
